@@ -456,3 +456,31 @@ impl<C: Context> Package<Ctx<C>> {
         codegen::testing::run_tests(&mut self.module, Ctx(ctx))
     }
 }
+
+#[cfg(feature = "verif-hooks")]
+impl<Ctx: OptCtx> LoweredToMir<'_, Ctx> {
+    /// Verification hook: the MIR as printed by the crate's own printer.
+    pub fn verif_text(&self) -> String {
+        use crate::ir_printer::Printable as _;
+        let printer = crate::ir_printer::IrPrinter {
+            type_info: &self.type_info,
+            label_store: &self.label_store,
+            scope: None,
+        };
+        self.ir.print(&printer)
+    }
+}
+
+#[cfg(feature = "verif-hooks")]
+impl<Ctx: OptCtx> LoweredToLir<'_, Ctx> {
+    /// Verification hook: the LIR as printed by the crate's own printer.
+    pub fn verif_text(&self) -> String {
+        use crate::ir_printer::Printable as _;
+        let printer = crate::ir_printer::IrPrinter {
+            type_info: &self.type_info,
+            label_store: &self.label_store,
+            scope: None,
+        };
+        self.ir.print(&printer)
+    }
+}
